@@ -294,6 +294,20 @@ inline KV genCase11(bool forTsan)
         p = genProblem(go);
         p.split_mode = 0;
     }
+    else if ((op <= OP11_EXSM_TAKE) && rint(0, 7) == 0) {
+        // residuals and smoothers (construction = matrix assembly included) on a level above the 10000-node
+        // threshold, where some of their regions switch to other loop structures; automatic line split
+        GridOpts go;
+        go.coarsenable  = true; // odd nr, ntheta % 4 == 0: admissible for every smoother
+        go.allow_culham = false;
+        go.nr_min       = 65; // 65 x 160..176: just above the threshold (the direct solvers' LU would take minutes under
+        go.nr_max       = 65; // ThreadSanitizer; their assembly regions do not depend on the size)
+        go.nt_min       = 160;
+        go.nt_max       = 176;
+        p               = genProblem(go);
+        p.split_mode    = 0;
+        c.putS("size_class", "above_10000_nodes");
+    }
     else {
         // explicit shape classes: number of circles mod 2,3,4; ntheta mod 3,4; minimal sizes
         const bool smoother = op >= OP11_SM_GIVE && op <= OP11_EXSM_TAKE;
